@@ -1200,7 +1200,7 @@ func runC20(b *runner.Batch) {
 func init() {
 	runner.Register(&runner.Check{
 		ID: "C20", Level: "exploration",
-		Rule: "PRNG multisets of puts over epochs {0,1,127,128,255,256,257,65535,65536,65537,2^31-1,...} (encodings of different lengths sharing prefixes), 3 containers (one missing), 4 storage nodes (in / newly in / outside the previous network map), 3 Inner Ring keys, peer ids that are byte prefixes of one another, prefix-related configuration keys, interleaved with epoch ticks (incl. jumps next to pool epochs so both clean-up boundaries are hit), key removals and unauthorised callers; after every operation every getter/lister of the contract just touched is read for every epoch/cid/node/owner/key of the pools and compared with plain multimap models (order-sensitive for reputation values). distinct = (operation, signer class, epoch / key class, outcome).",
+		Rule: "PRNG multisets of puts over epochs {0,1,127,128,255,256,257,65535,65536,65537,2^31-1,...} (encodings of different lengths sharing prefixes), 3 containers (one missing), 4 storage nodes (in / newly in / outside the previous network map), 3 Inner Ring keys, peer ids that are byte prefixes of one another, prefix-related configuration keys, interleaved with epoch ticks (incl. jumps next to pool epochs so both clean-up boundaries are hit), key removals and unauthorised callers; after every operation every getter/lister of the contract just touched is read for every epoch/cid/node/owner/key of the pools and compared with plain multimap models (order-sensitive for reputation values). distinct = (operation, signer class, epoch / key class, outcome). Six batches per quick run announce 1056 estimations (descending epochs, many per block) and outdate all of them by one tick; the raw estimation keys of the Container contract are compared with the model before and after.",
 		Assumptions: []string{"neo-go v0.107.0 VM, ledger and native contracts are the trusted base", "contracts are compiled at check time from /repo/contracts",
 			"known-finding matcher: a listing may contain extra entries only if each of them was really put under another (epoch, id) tuple whose raw storage key starts with the queried raw prefix; missing entries, never-stored entries, wrong clean-up boundaries and unauthorised puts stay violations"},
 		Batches: func(t string) int {
